@@ -1,11 +1,18 @@
 (* Properties/C11.v — DHCP never leases one address to two clients or hands out
    a reserved address.  Only statements, each closed by [exact] of a lemma
-   proved in Proofs/DHCP*.v. *)
-From PV Require Import Base.Prelude Model.DHCP Spec.DHCP Spec.DHCPCheck Proofs.DHCP.
+   proved in Proofs/DHCP*.v.
+
+   All statements quantify over every configuration c, every history h (ops
+   DISCOVER/REQUEST/DECLINE/RELEASE with arbitrary decoded fields, Capture /
+   Release of any MAC, MinuteTicker at any time, each op with its own
+   map-iteration oracle and clock value) of the model of the REPAIRED code
+   (fixes 7baf630 c9f204c d6f86b5 in /repo; see FIXLOG.md). *)
+From PV Require Import Base.Prelude Base.Text Model.DHCP Model.DHCPShow Spec.DHCP Spec.DHCPCheck
+  Proofs.DHCP Proofs.DHCPInv Proofs.DHCPRefuted.
+Open Scope list_scope.
 Open Scope N_scope.
 
-(* The lease table is a map: over every history (any ops, any map-iteration
-   oracle) no two entries carry the same client identifier. *)
+(* The lease table is a map: no two entries carry the same client identifier. *)
 Theorem C11_table_keys_unique : forall c h,
   NoDup (map l_cid (tbl (fst (run c (init c) h)))).
 Proof. exact table_keys_unique. Qed.
@@ -15,3 +22,34 @@ Print Assumptions C11_table_keys_unique.
 Theorem C11_uniqb_spec : forall t, uniqb t = true <-> Uniq t.
 Proof. exact uniqb_spec. Qed.
 Print Assumptions C11_uniqb_spec.
+
+(* No address is ever acknowledged to two different client identifiers. *)
+Theorem C11_uniq : forall c h, Uniq (tbl (fst (run c (init c) h))).
+Proof. exact uniq_all. Qed.
+Print Assumptions C11_uniq.
+
+(* No OFFER (and no ACK) names an address that is, at that step, acknowledged to
+   another client identifier. *)
+Theorem C11_no_offer_of_acked : forall c h t m r,
+  In t (trace c (init c) h) -> op_msg (t_op t) = Some m -> t_reply t = Some r ->
+  c11_not_acked_elsewhere (t_post t) m r = true.
+Proof. exact not_acked_elsewhere_all. Qed.
+Print Assumptions C11_no_offer_of_acked.
+
+(* No OFFER/ACK names the host's own address, the router's, the network or broadcast
+   address of the client's subnet (by its capture state at that moment), an address
+   outside that subnet, or one the session then tracks for a different MAC. *)
+Theorem C11_reserved : forall c h t m r,
+  In t (trace c (init c) h) -> op_msg (t_op t) = Some m -> t_reply t = Some r ->
+  c11_not_reserved c (t_pre t) m r = true.
+Proof. exact not_reserved_all. Qed.
+Print Assumptions C11_reserved.
+
+(* Non-vacuity: a history whose steps answer OFFER, ACK (home pool), OFFER, ACK
+   (netfilter pool, captured client) and a renewal ACK. *)
+Example C11_live_example :
+  map (fun t => match t_reply t with Some r => (r_type r, r_yi r) | None => (RNak, 0) end)
+      (trace wcfg (init wcfg) (with_ch0 wlive))
+  = [(ROffer, 3232235522); (RAck, 3232235522); (RNak, 0); (ROffer, 3232235532); (RAck, 3232235532); (RAck, 3232235522)].
+Proof. exact live_example. Qed.
+Print Assumptions C11_live_example.
